@@ -269,3 +269,7 @@ def run(ctx):
         for f in fails:
             ctx.violation("blockvector: " + f["what"], f, op="blockvector", triggers=[f["what"].split(":")[0]])
     ctx.mark_nontrivial("blockvector-functions")
+
+
+def replay(ctx, payload):
+    return stream.replay(ctx, payload, canon_kw=dict(drop_zero=True))
